@@ -9,6 +9,8 @@
 
 mod corpus;
 mod gen;
+mod gen_corpus;
+mod gen_schema;
 mod input;
 mod interleave;
 mod minimise;
